@@ -21,6 +21,6 @@ def run(ctx, rep):
     runloop.r07h(ctx, rep, rule="R12k")
     runloop.r12l(ctx, rep)
     runloop.r07i(ctx, rep, rule="R12m")
-    rep.note("observation (not armed): jump targets are encoded as VCell::Ptr and marked as if heap indices — "
-             "conservative retention of at most bc.len() low-numbered cells per lambda; bounded")
+    rep.note("observation: jump targets are encoded as VCell::Ptr and handed to the marker like references — conservative "
+             "retention of at most bc.len() low-numbered cells per lambda (bounded); that the marker leaves free cells alone is R03j")
     rep.not_decided += ["heap growth over unbounded executions", "leaks through over-marking that grow with work"]
